@@ -62,6 +62,12 @@ func (st ServerType) Setup(
 	gc := counter{new(int)}
 	state := make(map[string]any)
 
+	// the "order" global option modifies the package-level directive
+	// order; work on a copy and put the original back afterwards so the
+	// option applies to this adaptation only, not to every later one
+	defer func(orig []string) { directiveOrder = orig }(directiveOrder)
+	directiveOrder = slices.Clone(directiveOrder)
+
 	// load all the server blocks and associate them with a "pile" of config values
 	originalServerBlocks := make([]serverBlock, 0, len(inputServerBlocks))
 	for _, sblock := range inputServerBlocks {
